@@ -62,6 +62,30 @@ CHECKS = {
         note="Trusts the validator written from the rule list; declared length >= 1; any exception = reject.",
         design="5/C05",
     ),
+    "C02": dict(
+        technique="round-trip monitor over directed key/block-list/decryptor-subset bins: session key, block attributes (pass-through blocks by raw bytes) and content compared with the model of what was written",
+        text="All 15 ordered block lists, selectors 0..3, versions and codes with edge values, keys ending in 1/2/3/15 zero bytes and keys/versions solved so that each AES block's CRC has a 00 low/high/both byte, customer key present/absent, encrypted configuration components, and every non-empty decryptor subset are written by the real writer and read by the real reader; the result is compared field by field.",
+        note="Equality oracle; format-level conformance of the same files is C03/C08/C09.",
+        design="5/C02",
+    ),
+    "C06": dict(
+        technique="reference-model monitor (OpenSSL CBC of the zero-padded content vs the stored payload found by the independent parser) + needle scan + fault injection at every crypto call index of a write",
+        text="Contents of every length mod 16 and 0..17 trailing zeros (via set_config and direct construction, BF3 and BEC2 framing) are written; the stored payload must equal OpenSSL AES-128-CBC under the session key with zero IV, reading must return the content up to the declared length with the flag set, high-entropy needles must not occur in text or binary. A failing cipher is injected at each single crypto call of a write (and the cipher unregistered): the write must raise and nothing containing a needle may reach the stream or file.",
+        note="Only high-entropy needles are scanned; cipher registration is changed inside the shard process and restored.",
+        design="5/C06",
+    ),
+    "C07": dict(
+        technique="history monitors: hooks on the registered RNG and key generator record every draw (i-th file <-> i-th draw, distinctness, one ephemeral key per ECC wrap); independent unwrap of every written block; model-built spliced headers; read->write pass-through comparison",
+        text="Creations without explicit key are matched one-to-one against recorded RNG draws (also with a counting RNG registered), every written header is opened block by block with independent models and the common key must authenticate the directory, ephemeral points are tied to the recorded generator calls and must be pairwise distinct across writes and rewrites, all ordered pairs/triples of block kinds are spliced around two different keys (the equal-key control must be accepted), and files re-read with every decryptor subset are written again with pass-through blocks compared byte for byte.",
+        note="RNG collisions ignored; splice rejection required only with decryptors for both differing blocks.",
+        design="5/C07",
+    ),
+    "C09": dict(
+        technique="reference-model monitor: independent ECIES (OpenSSL ECDH/point check + SHA-256 + AES-CBC) opens every packed block; ephemeral key pinned through a hook on the key generator to decide the default-recipient case; invalid-point fault classes offered to the real decryptor",
+        text="Blocks packed for explicit recipients (edge scalars 1,2,n-2,n-1,2^k,2^k-1, random) are opened by OpenSSL with the recipient's private key; without explicit recipient (no encryptors / only other selectors / EccEncryptor(sel)) the generator hook pins the ephemeral key so the expected block for the published key of that selector is computed independently and compared byte for byte, and the key passed to the DH call is recorded. Ten classes of invalid ephemeral points must be refused by decrypt/unpack.",
+        note="Published keys pinned as specification data; 'refuses' = any exception.",
+        design="5/C09",
+    ),
 }
 
 NOT_YET = "check not built yet in this session (see DESIGN.md section 5 for the planned monitor)"
